@@ -488,6 +488,40 @@ def inv_partial(S3):
     return out
 
 
+def _pc(fxy, fxx, fyy, fxr, fyr, frr):
+    """the recorded defect in closed form: |R_xy - R_xr R_yr|^2 / ((1-|R_xr|^2)(1-|R_yr|^2)) (R_yr where R_ry belongs)"""
+    with np.errstate(all='ignore'):
+        Rxr = fxr / np.sqrt(fxx * frr)
+        Ryr = fyr / np.sqrt(fyy * frr)
+        Rxy = fxy / np.sqrt(fxx * fyy)
+        return np.abs(Rxy - Rxr * Ryr) ** 2 / ((1 - np.abs(Rxr) ** 2) * (1 - np.abs(Ryr) ** 2))
+
+
+def same_orientation(S, chans, r, semi):
+    chans = list(chans)
+    out = np.zeros((len(chans), len(chans), S.shape[-1]))
+    for a, i in enumerate(chans):
+        for b, j in enumerate(chans):
+            ii, jj = (i, j) if i <= j else (j, i)
+            out[a, b] = np.real(_pc(S[ii, jj], S[ii, ii], S[jj, jj], S[ii, r], S[jj, r], S[r, r]))
+    return out
+
+
+def same_orientation_analyzer(fxy):
+    """today's CoherenceAnalyzer.coherence_partial from the semi-filled spectrum (zeros below the diagonal)"""
+    n = fxy.shape[0]
+    out = np.zeros((n, n, n, fxy.shape[-1]))
+    for i in range(n):
+        for j in range(n):
+            for k in range(n):
+                if k != i and k != j:
+                    out[i, j, k] = np.real(_pc(fxy[i, j], fxy[i, i], fxy[j, j], fxy[i, k], fxy[j, k], fxy[k, k]))
+    for i in range(n):
+        for j in range(i):
+            out[i, j] = out[j, i]
+    return out
+
+
 def judge(sc, R, gain_rng=None):
     """property-level judgement of the implementation on one scenario: list of (key, what, obs)"""
     fails = []
@@ -518,7 +552,10 @@ def judge(sc, R, gain_rng=None):
             bad('mt-analyzer/coherence/not-symmetric', 'MT coherence matrix is not symmetric', 'mta')
         d = np.array([c[i, i] for i in range(nch)])
         if np.abs(d - 1).max() > 1e-9:
-            bad('mt-analyzer/self-coherence/not-1', 'MTCoherenceAnalyzer.coherence[i,i] = %.3g, not 1' % d.flat[np.abs(d - 1).argmax()], 'mta')
+            if np.all(d == 0):      # the recorded defect: the diagonal is never filled
+                bad('mt-analyzer/self-coherence/zero-diagonal', 'MTCoherenceAnalyzer.coherence[i,i] = 0, not 1', 'mta')
+            else:
+                bad('mt-analyzer/self-coherence/not-1', 'MTCoherenceAnalyzer.coherence[i,i] = %.3g, not 1' % d.flat[np.abs(d - 1).argmax()], 'mta')
         return fails
     if isinstance(R['spectra'], str):
         return fails
@@ -589,10 +626,12 @@ def judge(sc, R, gain_rng=None):
                     want = inv_partial(S[np.ix_([i, j, r], [i, j, r])])
                     worst = max(worst, np.abs(pc[i, j] - want).max())
                     above = max(above, pc[i, j].max())
+            # signature of the recorded defect: both cross-spectra with r in the orientation f_xr, f_yr
+            sig = '' if np.abs(pc - same_orientation(S, range(nch - 1), r, semi=False)).max() < 1e-7 else 'unrecognised-'
             if worst > 1e-7:
-                bad(pre + '/func/partial/ne-inverse', 'coherence_partial differs from |G_xy|^2/(G_xx G_yy), G = inv(S_3x3), by %.3g' % worst, 'partial')
+                bad(pre + '/func/partial/%sne-inverse' % sig, 'coherence_partial differs from |G_xy|^2/(G_xx G_yy), G = inv(S_3x3), by %.3g' % worst, 'partial')
             if above > 1 + tol:
-                bad(pre + '/func/partial/above-1', 'coherence_partial reaches %.4g > 1' % above, 'partial')
+                bad(pre + '/func/partial/%sabove-1' % sig, 'coherence_partial reaches %.4g > 1' % above, 'partial')
     a = R.get('an')
     if isinstance(a, str):
         if not (sc['kind'] == 'welch' and sc['nov'] is None and sc['NFFT'] <= 32):
@@ -617,10 +656,11 @@ def judge(sc, R, gain_rng=None):
                             want = inv_partial(S[np.ix_([i, j, r], [i, j, r])])
                             worst = max(worst, np.abs(pc[i, j, r] - want).max())
                             above = max(above, pc[i, j, r].max())
+                sig = '' if np.abs(pc - same_orientation_analyzer(fxy)).max() < 1e-7 else 'unrecognised-'
                 if worst > 1e-7:
-                    bad(pre + '/analyzer/partial/ne-inverse', 'CoherenceAnalyzer.coherence_partial differs from the inverse-matrix value by %.3g' % worst, 'apartial')
+                    bad(pre + '/analyzer/partial/%sne-inverse' % sig, 'CoherenceAnalyzer.coherence_partial differs from the inverse-matrix value by %.3g' % worst, 'apartial')
                 if above > 1 + tol:
-                    bad(pre + '/analyzer/partial/above-1', 'CoherenceAnalyzer.coherence_partial reaches %.4g > 1' % above, 'apartial')
+                    bad(pre + '/analyzer/partial/%sabove-1' % sig, 'CoherenceAnalyzer.coherence_partial reaches %.4g > 1' % above, 'apartial')
     # gain metamorphic relation (function level): channel m times a
     if gain_rng is not None and not isinstance(cy, str):
         A = tsa()
